@@ -58,7 +58,7 @@ func drawC14(rt *rapid.T) interface{} {
 	sc.Slots = rapid.SampledFrom([]int{1, 2, 3, 5}).Draw(rt, "slots")
 	sc.QSize = rapid.SampledFrom([]int{1, 2, 8}).Draw(rt, "qsize")
 	sc.StopK = rapid.SampledFrom([]int{-1, -1, 0, 1, 2, 4, 8}).Draw(rt, "stopk")
-	nc := rapid.IntRange(2, 5).Draw(rt, "ncallers")
+	nc := rapid.IntRange(2, hx.Pick(5, 7)).Draw(rt, "ncallers")
 	id := 1
 	for i := 0; i < nc; i++ {
 		n := rapid.IntRange(1, 4).Draw(rt, "ncalls")
@@ -429,6 +429,7 @@ func TestC14(t *testing.T) {
 		Stubs:       []string{"sync (simsync)", "context.Context (hx.SimCtx)", "goroutine scheduling and select choice (simrt)"},
 		Rule: "scenario = executor kind x lanes {1,2,3,5} x queue size {1,2,8} x 2-5 callers x 1-4 calls (hash incl. negative, MaxInt, MinInt; ctx background / pre-cancelled / cancelled by a canceller task; callee yields 0-2 times, may fail) x Stop placement (stopper task after k yields, or at the end) x scheduler knobs/tape incl. select order; " +
 			"non-trivial = >=2 tasks and >=1 switch; distinct = distinct event-log hash",
+		Probes: []string{"call-observed-accepted", "stop-mid-run", "refused-full", "caller-got-ctx-error", "ctx-ended"},
 		Assumptions: []string{"'accepted before' is known only when the earlier call was observed blocked waiting for its result (or had returned) before the later one was invoked",
 			"order across lanes of the multi-line executor is checked for equal hashes only (equal hash => same lane)"},
 	})
